@@ -66,6 +66,11 @@ impl OpticTable {
 ///  1 add (n -> 1)   2 mul (n -> 1)   3 neg (1 -> 1)   4 copy (1 -> 2)   5 discard (1 -> 0)
 ///  6 one (0 -> 1)   7 zero (0 -> 1)  8 and (n -> 1)   9 xor (n -> 1)   10 not (1 -> 1)
 /// 11 copy3 (1 -> 3) 12 swap (2 -> 2) 13 addmul (2 -> 2: sum, product)
+/// 14 sub 15 div 16 or 17 shl 18 shr (2 -> 1: operators of the Var interface)
+fn arg(args: &[u8], i: usize) -> u8 {
+    args.get(i).copied().unwrap_or(0)
+}
+
 pub fn apply_op(label: i64, args: &[u8]) -> Vec<u8> {
     let sum = args.iter().fold(0u8, |a, b| a.wrapping_add(*b));
     let prod = args.iter().fold(1u8, |a, b| a.wrapping_mul(*b));
@@ -83,6 +88,12 @@ pub fn apply_op(label: i64, args: &[u8]) -> Vec<u8> {
         11 => vec![args.first().copied().unwrap_or(0); 3],
         12 => vec![args.get(1).copied().unwrap_or(0), args.first().copied().unwrap_or(0)],
         13 => vec![sum, prod],
+        // the remaining binary operators of the Var interface (operand order matters for some of them)
+        14 => vec![arg(args, 0).wrapping_sub(arg(args, 1))],
+        15 => vec![if arg(args, 1) == 0 { 0 } else { arg(args, 0) / arg(args, 1) }],
+        16 => vec![arg(args, 0) | arg(args, 1)],
+        17 => vec![arg(args, 0).wrapping_shl((arg(args, 1) % 8) as u32)],
+        18 => vec![arg(args, 0) >> (arg(args, 1) % 8)],
         _ => panic!("harness: operation label {} is not in the test signature", label),
     }
 }
